@@ -237,7 +237,7 @@ def snapshot_files():
 def main(tier, seed):
     run = Run("C13", tier, seed, "exploration")
     snaps = snapshot_files()
-    per, ncmd = (4, 14) if tier == "quick" else (40, 20)
+    per, ncmd = (6, 16) if tier == "quick" else (150, 24)
     jobs = [{"seed": seed, "lo": i * per, "hi": (i + 1) * per, "ncmd": ncmd, "snaps": snaps} for i in range(NCPU)]
     run.absorb(run_shards("checks.c13", "shard", jobs, timeout=3400))
     try:
